@@ -1,54 +1,81 @@
 ---------------------------- MODULE LockFileScripts ----------------------------
 (* Schedules for C15 (cross-process): every interleaving of the system-call steps of the
-   participants - open (O_EXCL attempt, falling back to a plain open), init (the creator's
-   initialising write), try (one non-blocking lockf), read (pread of the counter byte; the
-   replay then takes the counters for its messages), write (pwrite), unlock - where each
-   participant runs Cycles lock cycles and makes at most MaxFail failing lock attempts.
-   Every hold of the lock ends in one of the Modes - "ok" (the block returns), "raise" (an
-   exception leaves the block after its messages went out), "cancel" (the task is cancelled
-   there) - chosen at the read step; at most MaxExc holds of a schedule end exceptionally.
-   `same` tells whether the participants use the same terminal.  Each complete schedule is
-   printed once with the number of steps another participant makes inside a creation window. *)
+   users of a layout - per process: open (O_EXCL attempt, falling back to a plain open), init
+   (the creator's initialising write); per user: try (one non-blocking lockf), read (pread of
+   the counter byte; the replay then takes the counters for its messages), write (pwrite),
+   unlock - where each user runs Cycles lock cycles and makes at most MaxFail failing attempts.
+
+   Layout  "same":  two processes, one user each, same terminal
+           "mixed": two processes, one user each, different terminals
+           "multi": process P with two users (tasks) on terminals 0 and 1 - so P holds the locks
+                    of two terminals at the same time - and process Q with one user on terminal 0
+   Every hold ends in one of the Modes - "ok" (the block returns), "raise" (an exception leaves
+   the block after its messages went out), "cancel" (the task is cancelled there) - chosen at
+   the read step; at most MaxExc holds of a schedule end exceptionally.
+   Atomic = TRUE keeps try+read and write+unlock of a user together (coarser interleaving for
+   the larger layouts).  Each complete schedule is printed once with the number of steps others
+   make inside a creation window.                                                          *)
 EXTENDS Integers, Sequences, FiniteSets, TLC, Json
-CONSTANTS Procs, Cycles, MaxFail, Same,
+CONSTANTS Layout, Cycles, MaxFail,
           Pre,           \* the lock file exists already (left by earlier participants)
-          Modes, MaxExc
-VARIABLES hist, exists, st, cyc, fails, window, nexc
-svars == <<hist, exists, st, cyc, fails, window, nexc>>
+          Modes, MaxExc, Atomic
+Users == IF Layout = "multi" THEN {"u1", "u2", "u3"} ELSE {"u1", "u2"}
+ProcOf(u) == IF Layout = "multi" THEN (IF u = "u3" THEN "Q" ELSE "P") ELSE (IF u = "u1" THEN "P" ELSE "Q")
+ByteOf(u) == CASE Layout = "same" -> 0
+               [] Layout = "mixed" -> (IF u = "u1" THEN 0 ELSE 1)
+               [] Layout = "multi" -> (IF u = "u2" THEN 1 ELSE 0)
+Procs == {ProcOf(u) : u \in Users}
 
-Busy(p) == st[p] \in {"locked", "holding", "written"}
-Blocked(p) == Same /\ \E q \in Procs \ {p} : Busy(q)
-Step(p, a) == hist' = Append(hist, [p |-> p, a |-> a, mode |-> ""]) /\ UNCHANGED nexc
-ReadStep(p, m) == /\ hist' = Append(hist, [p |-> p, a |-> "read", mode |-> m])
-                  /\ nexc' = IF m = "ok" THEN nexc ELSE nexc + 1
-InWindow(p) == \E q \in Procs \ {p} : st[q] = "created"
+VARIABLES hist, exists, pst, st, cyc, fails, window, nexc, must
+svars == <<hist, exists, pst, st, cyc, fails, window, nexc, must>>
 
-SInit == /\ hist = <<>> /\ exists = Pre /\ window = 0 /\ nexc = 0
-         /\ st = [p \in Procs |-> "start"]
-         /\ cyc = [p \in Procs |-> 0] /\ fails = [p \in Procs |-> 0]
+Busy(u) == st[u] \in {"locked", "holding", "written"}
+Blocked(u) == \E v \in Users \ {u} : Busy(v) /\ ByteOf(v) = ByteOf(u)
+Rec(q, u, a, m) == [p |-> q, u |-> u, a |-> a, mode |-> m]
+InWindow(q) == \E r \in Procs \ {q} : pst[r] = "created"
 
-SNext == \E p \in Procs :
-    /\ window' = IF InWindow(p) THEN window + 1 ELSE window
-    /\ \/ /\ st[p] = "start" /\ Step(p, "open")
-          /\ st' = [st EXCEPT ![p] = IF exists THEN "open" ELSE "created"]
-          /\ exists' = TRUE /\ UNCHANGED <<cyc, fails>>
-       \/ /\ st[p] = "created" /\ Step(p, "init")
-          /\ st' = [st EXCEPT ![p] = "open"] /\ UNCHANGED <<exists, cyc, fails>>
-       \/ /\ st[p] = "open" /\ cyc[p] < Cycles /\ Step(p, "try")
-          /\ IF Blocked(p)
-             THEN fails[p] < MaxFail /\ fails' = [fails EXCEPT ![p] = @ + 1] /\ UNCHANGED st
-             ELSE st' = [st EXCEPT ![p] = "locked"] /\ UNCHANGED fails
-          /\ UNCHANGED <<exists, cyc>>
-       \/ /\ st[p] = "locked"
-          /\ \E m \in Modes : (m # "ok" => nexc < MaxExc) /\ ReadStep(p, m)
-          /\ st' = [st EXCEPT ![p] = "holding"] /\ UNCHANGED <<exists, cyc, fails>>
-       \/ /\ st[p] = "holding" /\ Step(p, "write")
-          /\ st' = [st EXCEPT ![p] = "written"] /\ UNCHANGED <<exists, cyc, fails>>
-       \/ /\ st[p] = "written" /\ Step(p, "unlock")
-          /\ st' = [st EXCEPT ![p] = "open"] /\ cyc' = [cyc EXCEPT ![p] = @ + 1]
-          /\ UNCHANGED <<exists, fails>>
+SInit == /\ hist = <<>> /\ exists = Pre /\ window = 0 /\ nexc = 0 /\ must = ""
+         /\ pst = [q \in Procs |-> "start"]
+         /\ st = [u \in Users |-> "idle"]
+         /\ cyc = [u \in Users |-> 0] /\ fails = [u \in Users |-> 0]
+
+ProcStep(q) ==
+    /\ must = ""
+    /\ window' = IF InWindow(q) THEN window + 1 ELSE window
+    /\ \/ /\ pst[q] = "start" /\ hist' = Append(hist, Rec(q, "", "open", ""))
+          /\ pst' = [pst EXCEPT ![q] = IF exists THEN "open" ELSE "created"]
+          /\ exists' = TRUE
+       \/ /\ pst[q] = "created" /\ hist' = Append(hist, Rec(q, "", "init", ""))
+          /\ pst' = [pst EXCEPT ![q] = "open"] /\ UNCHANGED exists
+    /\ UNCHANGED <<st, cyc, fails, nexc, must>>
+
+UserStep(u) ==
+    LET q == ProcOf(u) IN
+    /\ must \in {"", u}
+    /\ window' = IF InWindow(q) THEN window + 1 ELSE window
+    /\ \/ /\ pst[q] = "open" /\ st[u] = "idle" /\ cyc[u] < Cycles
+          /\ hist' = Append(hist, Rec(q, u, "try", ""))
+          /\ IF Blocked(u)
+             THEN fails[u] < MaxFail /\ fails' = [fails EXCEPT ![u] = @ + 1] /\ UNCHANGED <<st, must>>
+             ELSE st' = [st EXCEPT ![u] = "locked"] /\ UNCHANGED fails
+                  /\ must' = IF Atomic THEN u ELSE ""
+          /\ UNCHANGED <<cyc, nexc>>
+       \/ /\ st[u] = "locked"
+          /\ \E m \in Modes : /\ (m # "ok" => nexc < MaxExc)
+                              /\ hist' = Append(hist, Rec(q, u, "read", m))
+                              /\ nexc' = IF m = "ok" THEN nexc ELSE nexc + 1
+          /\ st' = [st EXCEPT ![u] = "holding"] /\ must' = "" /\ UNCHANGED <<cyc, fails>>
+       \/ /\ st[u] = "holding" /\ hist' = Append(hist, Rec(q, u, "write", ""))
+          /\ st' = [st EXCEPT ![u] = "written"] /\ must' = (IF Atomic THEN u ELSE "")
+          /\ UNCHANGED <<cyc, fails, nexc>>
+       \/ /\ st[u] = "written" /\ hist' = Append(hist, Rec(q, u, "unlock", ""))
+          /\ st' = [st EXCEPT ![u] = "idle"] /\ cyc' = [cyc EXCEPT ![u] = @ + 1] /\ must' = ""
+          /\ UNCHANGED <<fails, nexc>>
+    /\ UNCHANGED <<exists, pst>>
+
+SNext == (\E q \in Procs : ProcStep(q)) \/ (\E u \in Users : UserStep(u))
 SSpec == SInit /\ [][SNext]_svars
 
-Complete == \A p \in Procs : st[p] = "open" /\ cyc[p] = Cycles
+Complete == \A u \in Users : st[u] = "idle" /\ cyc[u] = Cycles
 Emit == Complete => PrintT(<<"SCHEDULE", window, ToJson(hist)>>)
 =============================================================================
